@@ -54,6 +54,9 @@ def run_damaged(job):
     return n, None
 
 
+GAPS = (1.0, 29.0, 61.0, 299.0)
+
+
 def _command(gen):
     from . import sockcommon
     return sockcommon.catalogue(gen)[0][0][1]
@@ -69,6 +72,9 @@ def deliver(gen, raw, cuts, modes):
         pos = c
         if i >= len(modes) or modes[i]:
             w.loop.settle()
+        if i < len(modes) and isinstance(modes[i], tuple):
+            # ("wait", seconds): the rest of the frame is a long time coming - every loop timer in between fires
+            w.loop.run_until(w.loop.time() + modes[i][1])
         if i < len(modes) and modes[i] == "send":
             # other tasks of the client run between two segments: here one that transmits a command
             w.spawn(w.sock.send(_command(gen), w.policy))
@@ -104,6 +110,18 @@ def run_stream(job):
                 if got != base or nconn != 1 or rep:
                     return n, (f"at{gen} {name}: cuts {cuts} (settle after segment: {modes}): delivered {len(got)} messages "
                                f"over {nconn} connection(s), unsegmented run delivered {len(base)}; loop reports {rep[:1]}")
+    # one cut at every position with a long silence before the rest arrives (1 s, 29 s, 61 s, 299 s: below the
+    # heartbeat timeout of a bare socket there is no reason to drop or tear a frame that is slow in coming)
+    for c in positions:
+        k += 1
+        if k % nshards != shard:
+            continue
+        for gap in GAPS:
+            got, nconn, rep = deliver(gen, raw, (c,), (("wait", gap),))
+            n += 1
+            if got != base or nconn != 1 or rep:
+                return n, (f"at{gen} {name}: cut at {c} with {gap} s of silence before the rest: delivered {len(got)} messages "
+                           f"over {nconn} connection(s), unsegmented run delivered {len(base)}; loop reports {rep[:1]}")
     if shard == 0:
         for modes in ((True,) * (len(raw) - 1), (False,) * (len(raw) - 1)):
             got, nconn, rep = deliver(gen, raw, tuple(range(1, len(raw))), modes)
